@@ -75,12 +75,25 @@ func init() {
 		Run: func(c *RuleCtx) {
 			rt := c.field("chunkPayloadData", "retransmit")
 			acked := c.field("chunkPayloadData", "acked")
-			ab := c.Fn("chunkPayloadData.abandoned")
+			// the give-up predicate: a method of the chunk that reads the abandoned flag and does NOT wait for all
+			// fragments to be in flight (abandoned() does, because only then can a FORWARD-TSN name the message; a
+			// retransmission decision that waits as well keeps retransmitting the fragments already sent — F30)
+			preds := giveUpPredicates(c)
+			abCond := func(v ssa.Value) CondPat {
+				return func(cond ssa.Value, taken bool) bool {
+					for _, p := range preds {
+						if CallCond(p, false, IsValue(v))(cond, taken) {
+							return true
+						}
+					}
+					return false
+				}
+			}
 			nSent := c.field("chunkPayloadData", "nSent")
 			ks := keyer{}
 			check := func(in ssa.Instruction, base ssa.Value, where string) {
 				okA := DominatedByExt(in, BoolCond(isFieldLoadOn(acked, base), false))
-				okB := DominatedByExt(in, CallCond(ab, false, IsValue(base)))
+				okB := DominatedByExt(in, abCond(base))
 				if _, isPhi := base.(*ssa.Phi); isPhi && !(okA && okB) {
 					// the chunk was selected earlier (e.g. "latest = c" in a scan loop):
 					// every value that can flow into the φ must have been guarded where it was selected
@@ -98,7 +111,7 @@ func init() {
 						if isPhi && seenPhi[phi] {
 							return // a value carried round the loop: judged where it was selected
 						}
-						if from != nil && factsAt(from, BoolCond(isFieldLoadOn(acked, v), false)) && factsAt(from, CallCond(ab, false, IsValue(v))) {
+						if from != nil && factsAt(from, BoolCond(isFieldLoadOn(acked, v), false)) && factsAt(from, abCond(v)) {
 							nLeaves++
 							return
 						}
@@ -113,7 +126,7 @@ func init() {
 						if from == nil || !factsAt(from, BoolCond(isFieldLoadOn(acked, v), false)) {
 							okA = false
 						}
-						if from == nil || !factsAt(from, CallCond(ab, false, IsValue(v))) {
+						if from == nil || !factsAt(from, abCond(v)) {
 							okB = false
 						}
 					}
@@ -122,8 +135,8 @@ func init() {
 						okA, okB = false, false
 					}
 				}
-				c.Check(okA && okB, ks.key("rearm-guard@"+where), c.Pos(in), "dominated by !chunk.acked ∧ !chunk.abandoned() for the same chunk",
-					fmt.Sprintf("chunk can be re-armed although acked/abandoned (acked-guard=%v abandoned-guard=%v)", okA, okB))
+				c.Check(okA && okB, ks.key("rearm-guard@"+where), c.Pos(in), "dominated by !chunk.acked ∧ !chunk.givenUp() for the same chunk",
+					fmt.Sprintf("chunk can be re-armed although acked/abandoned (acked-guard=%v abandoned-guard=%v; the abandonment guard must be a predicate that does not wait for all fragments to be in flight)", okA, okB))
 			}
 			for _, a := range c.P.Writes(rt) {
 				if a.Kind != AccWrite || !IsConstBool(true)(a.Val) {
@@ -267,3 +280,32 @@ func init() {
 }
 
 var ks6 = keyer{}
+
+// giveUpPredicates: methods of chunkPayloadData returning bool that read _abandoned and never _allInflight.
+func giveUpPredicates(c *RuleCtx) []*ssa.Function {
+	fa, fi := c.field("chunkPayloadData", "_abandoned"), c.field("chunkPayloadData", "_allInflight")
+	var out []*ssa.Function
+	for _, fn := range c.P.Funcs {
+		if fn.Parent() != nil || fn.Signature.Recv() == nil || typeShort(fn.Signature.Recv().Type()) != "*chunkPayloadData" {
+			continue
+		}
+		if fn.Signature.Results().Len() != 1 || typeShort(fn.Signature.Results().At(0).Type()) != "bool" || fn.Signature.Params().Len() != 0 {
+			continue
+		}
+		readsA, readsI := false, false
+		forEachInstrDeep(c.P, fn, 1, func(in ssa.Instruction) {
+			if x, ok := in.(*ssa.FieldAddr); ok {
+				switch fieldOf(x.X.Type(), x.Field) {
+				case fa:
+					readsA = true
+				case fi:
+					readsI = true
+				}
+			}
+		})
+		if readsA && !readsI {
+			out = append(out, fn)
+		}
+	}
+	return out
+}
